@@ -486,6 +486,9 @@ def _layout(e, env):
                 b = _layout(a.elts[0], env)
                 return None if b is None else ("1",) + tuple(b)
             return _layout(a, env)
+        if fn in ("np.ones", "np.full", "np.zeros", "np.empty") and e.args and not isinstance(e.args[0], (ast.List, ast.Tuple)) and \
+                _count_axis(e.args[0], env) is not None:
+            return (_count_axis(e.args[0], env),)                  # one-dimensional: np.ones(n)
         if fn in ("np.ones", "np.full", "np.zeros", "np.empty") and e.args and isinstance(e.args[0], (ast.List, ast.Tuple)):
             dims = []
             for d in e.args[0].elts:
@@ -765,15 +768,32 @@ def _r3(ctx):
                          (" ; ".join(ta) or "(nothing)", " ; ".join(tb) or "(nothing)"), text="class-limit copies")
     a = prog.func("pylife.strength.fkm_nonlinear.damage_calculator:DamageCalculatorPRAM._initialize_collective_index")
     b = prog.func("pylife.strength.fkm_nonlinear.damage_calculator:DamageCalculatorPRAJ._initialize_collective_index")
-    skip = lambda s: isinstance(s, ast.Assert)
-    d, na, nb = diff_blocks(b.node.body, a.node.body, skip=skip)
-    extra = [x for x in d if not (x[0] == "insert" and all("_n_hystereses_run_2" in t for t in x[3]))]
-    if not extra:
-        ctx.holds(b, b.node, "index normalisation of the two calculators agrees (P_RAM variant additionally counts run 2)")
+    # what the two methods do to the table, not how they are written: the index they give an un-indexed table and the row count
+    # they store, with private helpers expanded and temporaries removed
+    from ..inline import inlined
+    from ..astutil import inline_single_defs
+
+    def facts_of(fi_):
+        fx = inlined(prog, fi_)
+        idx, cnt = [], []
+        for st_ in walk_stmts(fx.node.body):
+            if isinstance(st_, ast.Assign) and len(st_.targets) == 1:
+                t_ = st_.targets[0]
+                if isinstance(t_, ast.Attribute) and t_.attr == "index" and is_self_attr(t_.value, "_collective"):
+                    guard = getattr(st_, "_parent", None)
+                    idx.append((norm_text(inline_single_defs(fx.node, st_.value)),
+                                norm_text(guard.test) if isinstance(guard, ast.If) else ""))
+                if is_self_attr(t_, "_n_hystereses"):
+                    cnt.append(norm_text(inline_single_defs(fx.node, st_.value)))
+        return idx, cnt
+    fa_, fb_ = facts_of(a), facts_of(b)
+    if not fa_[0] or not fb_[0] or not fa_[1] or not fb_[1]:
+        raise AnalysisError("_initialize_collective_index: index creation / hysteresis count not found in both calculators")
+    if fa_ == fb_:
+        ctx.holds(b, b.node, "index normalisation of the two calculators agrees (same index for an un-indexed table, same row count)")
     else:
-        tag, ta, sa, tb, sb = extra[0]
-        ctx.violated(b, sa or sb or b.node, "index normalisation of the two damage calculators differs: %s  vs  %s" %
-                     (" ; ".join(ta) or "(nothing)", " ; ".join(tb) or "(nothing)"), text="index normalisation copies")
+        ctx.violated(b, b.node, "index normalisation of the two damage calculators differs: %s  vs  %s" % (fb_, fa_),
+                     text="collective index")
 
 
 # =========================================================================== variants
